@@ -103,6 +103,21 @@ pub fn check(case: &Case) -> Verdict {
             fail!("{}: {} stores {} / unit #{}", note, what, amt::show(r.0), r.1);
         }
     }
+    // the results depend on the operands only
+    let h = crate::hist::mix(&[crate::hist::mix_str(&amt::key(a)), crate::hist::mix_str(&amt::key(k)), case.unit as u64]);
+    if h % 4 == 0 {
+        let obs = || {
+            format!(
+                "k*q {}, q*k {}, q/k {}",
+                crate::hist::show_q((t.amt_mul_qty)(k, q)),
+                crate::hist::show_q((t.qty_mul_amt)(q, k)),
+                catch(|| crate::hist::show_q((t.qty_div_amt)(q, k))).unwrap_or_else(|_| "panic".into())
+            )
+        };
+        if let Some(m) = crate::hist::independent(h, &obs) {
+            fail!("{}: {}", note, m);
+        }
+    }
     let mut all_ok = true;
     for (what, imp, own) in [
         ("k * q", catch(|| (t.amt_mul_qty)(k, q)), catch(|| k * a)),
